@@ -25,7 +25,7 @@ impl embedded_hal::serial::Read<u8> for UsartDev {
         match s.rx.pop_front() {
             None => { spin(&mut s.spins); Err(nb::Error::WouldBlock) }
             Some(t) if t < 256 => Ok(t as u8),
-            Some(256) => Err(nb::Error::WouldBlock),
+            Some(256) => { gap_sleep(); Err(nb::Error::WouldBlock) }
             Some(_) => Err(nb::Error::Other(())),
         }
     }
@@ -53,6 +53,10 @@ impl embedded_hal::serial::Write<u8> for UsartDev {
     }
 }
 
+// real time: when set (one marked case per link), every scripted 'no data yet' answer of a receive call also lets that much wall-clock time pass
+pub static GAP_SLEEP_MS: std::sync::atomic::AtomicU64 = std::sync::atomic::AtomicU64::new(0);
+pub fn gap_sleep() { let ms = GAP_SLEEP_MS.load(std::sync::atomic::Ordering::Relaxed); if ms > 0 { std::thread::sleep(std::time::Duration::from_millis(ms)); } }
+
 // ---------- CAN (hook: ross_protocol::interface::can::verif_sim::Instance) ----------
 pub enum CanTok { Frame(bxcan::Frame), WouldBlock, Overrun }
 #[derive(Default)]
@@ -66,7 +70,7 @@ impl ross_protocol::interface::can::verif_sim::Instance for CanDev {
         match s.rx.pop_front() {
             None => { spin(&mut s.spins); Err(nb::Error::WouldBlock) }
             Some(CanTok::Frame(f)) => Ok(f),
-            Some(CanTok::WouldBlock) => Err(nb::Error::WouldBlock),
+            Some(CanTok::WouldBlock) => { gap_sleep(); Err(nb::Error::WouldBlock) }
             Some(CanTok::Overrun) => Err(nb::Error::Other(())),
         }
     }
@@ -95,7 +99,7 @@ impl std::io::Read for SerDev {
         if buf.is_empty() { return Ok(0); }
         match s.rx.front().cloned() {
             None => { spin(&mut s.spins); Err(std::io::Error::new(std::io::ErrorKind::TimedOut, "timeout")) }
-            Some(256) => { s.rx.pop_front(); Err(std::io::Error::new(std::io::ErrorKind::TimedOut, "timeout")) }
+            Some(256) => { s.rx.pop_front(); gap_sleep(); Err(std::io::Error::new(std::io::ErrorKind::TimedOut, "timeout")) }
             Some(258) => { s.rx.pop_front(); Err(std::io::Error::new(std::io::ErrorKind::Interrupted, "interrupted")) }
             Some(262) => { s.rx.pop_front(); Ok(0) }
             Some(259) => { s.rx.pop_front(); Err(std::io::Error::new(std::io::ErrorKind::WouldBlock, "would block")) }
